@@ -479,6 +479,34 @@ def r7_check_predicates(ctx, res):
         raise AnalysisError(f'anchor vanished: only {len(reviewed)} of the {len(PREDICATES)} reviewed checks are still registered in validate._codes')
 
 
+def r8_cli_exit_status(ctx, res):
+    """`python -m wn validate FILE` exits 0 exactly when NO lexicon of the file has a finding: the verdict variable starts true,
+    is only ever cleared (under "this lexicon's report has items"), and decides the exit status.  On the effect summary of
+    __main__._validate."""
+    from ..speccheck import view
+    import re
+    v = view(ctx, '__main__', '_validate')
+    key = 'cli-exit-status'
+    exits = [r for r in v.rows if r[0] == 'call' and 'sys.exit' in r[1]]
+    m = re.fullmatch(r'sys\.exit\(0\) if (#\d+) else sys\.exit\(1\)', exits[0][1]) if len(exits) == 1 else None
+    m2 = re.fullmatch(r'sys\.exit\(0 if (#\d+) else 1\)', exits[0][1]) if len(exits) == 1 else None
+    m = m or m2
+    res.inst(key, v.loc(), f'{[r[1] for r in exits]}')
+    if not m or exits[0][2] or exits[0][3]:
+        res.find(key, v.loc(), f'_validate no longer ends with sys.exit(0 if <verdict> else 1) unconditionally: {[r[1] for r in exits]}')
+        return
+    cell = m.group(1)
+    news = [e for e in v.E if e.kind == 'new' and e.text.startswith(cell + '<')]
+    stores = [r for r in v.rows if r[0] in ('store', 'aug') and re.match(re.escape(cell) + r'\b', r[1])]
+    res.inst(key + ':verdict', v.loc(), f'init {[e.text for e in news]}; stores {[(r[1], sorted(r[2])) for r in stores]}')
+    ok = len(news) == 1 and news[0].text == f'{cell}<True>' and len(stores) >= 1 \
+        and all(r[1] == f'{cell} = False' and len(r[2]) == 1 and 'any(' in next(iter(r[2])) and ".get('items'" in next(iter(r[2]))
+                and not next(iter(r[2])).startswith('not ') for r in stores)
+    if not ok:
+        res.find(key + ':verdict', v.loc(), f'the exit verdict of `wn validate` is no longer "true until some lexicon has a finding": '
+                                            f'init {[e.text for e in news]}, updates {[(r[1], sorted(r[2])) for r in stores]} - a file '
+                                            f'whose last lexicon is clean exits 0 although an earlier one failed')
+
 RULES = [
     ('C18-R1', r1_totality, 70),
     ('C18-R2', r2_registry, 20),
@@ -487,4 +515,5 @@ RULES = [
     ('C18-R5', r5_reference_predicates, 2),
     ('C18-R6', r6_blank_predicates, 4),
     ('C18-R7', r7_check_predicates, 20),
+    ('C18-R8', r8_cli_exit_status, 2),
 ]
